@@ -27,16 +27,34 @@ def run(run):
                       signature={'clause': clause, 'weights': key[1], 'point': key[2]}, reproduced=True)
     run.bounded['oracle-call-sequences'] = {
         'evaluations': n, 'failing': len(res), 'exhaustive': False,
-        'rule': 'call sequences over 37 actions (oracle / gradient / value at 5 points incl. two spellings of the zero point and of x0, stationary_point, '
-                'proximal_step) on 3 leaf functions (two differentiable, one not) and 7 composite layouts (sum, weighted, zero weight, cancelling weights, nested, scaled '
-                'nested): all sequences of length 1, %s of length 2, random ones of length 3-4; invariant I1-I3 + return consistency after every call'
-                % ('all' if run.tier != 'quick' else '250 per layout'),
+        'rule': 'call sequences over 58 actions (oracle / gradient / value at 5 points incl. two spellings of the zero point and of x0, stationary_point, fixed_point, '
+                'proximal_step incl. a step of size 0 as first call) on 3 leaf functions (two differentiable, one not) and 7 composite layouts (sum, weighted, zero weight, cancelling weights, nested, scaled '
+                'nested): all sequences of length 1, %s of length 2, random ones of length 3-4; invariant I1-I4 + return consistency (returned triples are recorded samples) after every call'
+                % ('all' if run.tier != 'quick' else '300 per layout'),
         'summary': '%d call sequences on real functions, %d break the representation invariant' % (n, len(res))}
     run.assume('the composite branch of Function.oracle / add_point (mutual recursion) is covered by the bounded call-sequence enumerator only')
+    nflag, ffails = o.constructor_flags()
+    seenf = set()
+    for clause, text in ffails:
+        if clause in seenf:
+            continue
+        seenf.add(clause)
+        run.violation('C07/class-flags/%s' % clause, text, replay={'kind': 'class-flags', 'observed': [list(x) for x in ffails][:10]}, signature={'clause': clause}, reproduced=True)
+    run.bounded['class-flags'] = {'evaluations': nflag, 'failing': len(ffails),
+                                  'rule': 'every shipped function / operator class declared with reuse_gradient omitted / True / its default and a name: the function carries '
+                                          'the flag asked for (expectation read from the class signature) and a differentiable one returns one gradient per point'}
 
 
 def replay(rec, path):
     from harness import oracle_seq as o
+    if rec.get('kind') == 'class-flags':
+        n, fails = o.constructor_flags()
+        print('failed:', fails[:5])
+        if fails:
+            print('VIOLATION property=C07 replay=%s' % path)
+            return 1
+        print('not reproduced on the current tree')
+        return 0
     seq = [tuple(a) for a in rec['sequence']]
     fails = o.run_sequence(rec['layout'], seq)
     print('layout', rec['layout'], 'sequence', seq)
